@@ -446,3 +446,11 @@ def top_of(n: Node) -> Node:
 
 def first_or_none(seq: SeqNode) -> Node:
     return None if len(seq) == 0 else seq[0]
+
+
+@abstract
+def unesc(content: str, string: bool) -> str:
+    """css-syntax 4.3.7 escape decoding of a whole string (executable: the real css_unescape; in SMT an uninterpreted function,
+    so contracts that mention it are about how callers compose it, not about its value)."""
+    from soupsieve import css_parser as _cp
+    return _cp.css_unescape(content, string)
